@@ -573,6 +573,25 @@ theorem C14_top_level_shadows_fails :
 theorem C14_shadowing_pattern_accepted :
     (register [⟨.msg, "normal", ⟨"", ""⟩⟩] ⟨.top, "", ⟨"jabber:client", ""⟩⟩ false).isSome = true := by decide
 
+/-- **the dispatch of an element is a function of the SET of registrations**: whatever the order
+of the registrations, and whether or not elements were dispatched between them (the model's
+state is the table: `C14_history_state`), two multiplexers holding the same patterns treat every
+element alike — handlers, their order, their views, the default reply -/
+theorem C14_elem_set (t1 t2 : Table) (h : ∀ p, p ∈ t1 ↔ p ∈ t2) (ns : String) (toks : List Tok)
+    (cons : List Nat) : handleElem t1 ns toks cons = handleElem t2 ns toks cons := by
+  have hl : ∀ k typ n, lookup t1 k typ n = lookup t2 k typ n :=
+    fun k typ n => C14_lookup_set t1 t2 h k typ n
+  have hr : ∀ n, route t1 ns n = route t2 ns n := fun n => by simp [route, hl]
+  cases toks with
+  | nil => rfl
+  | cons t ts =>
+    cases t with
+    | start n as =>
+      simp only [handleElem, hr, iqRouteA, stanzaRoute, forChildrenF_eq]
+      rw [iqRoute_congr t1 t2 _ (hl .iq _), forChildren_congr t1 t2 .msg _ (hl .msg _),
+        forChildren_congr t1 t2 .pres _ (hl .pres _)]
+    | _ => rfl
+
 /-! ### construction of the multiplexer value -/
 
 /-- **a multiplexer without a stanza namespace routes the stanzas of every namespace** — the zero
